@@ -19,8 +19,12 @@ def kind_of(t, terms):
 
 def meaning(c, t):
     """Documented meaning of type t applied to the plain class c (docs/types.md)."""
-    from ovld.types import MetaMC, SingleFunctionHandler
+    from ovld.types import Dataclass, MetaMC, SingleFunctionHandler
 
+    if t is Dataclass:  # docs/types.md: "matches dataclasses" - independent of the subclass hook the library wrote
+        import dataclasses
+
+        return isinstance(c, type) and dataclasses.is_dataclass(c)
     if id(t) in T.SPEC:  # use the arguments given to the constructor, not what the object stored
         name, ms = T.SPEC[id(t)]
         if name == "Union":
@@ -136,9 +140,16 @@ def run(clause, ks):
         def has_alias(t):
             return typing.get_origin(t) is not None or any(has_alias(a) for a in getattr(t, "__args__", ()) if a is not t)
 
+        from ovld.types import Dataclass as _Dataclass
+
+        vals += [T.Point(), T.Point3()]
         for t in terms[ks[0]]:
             if has_alias(t):
                 continue  # isinstance against a parametrised generic is a TypeError in CPython: outside the property's domain
+            if t is _Dataclass:
+                # CPython: isinstance against a runtime-checkable Protocol WITHOUT members is True for every object (the
+                # subclass hook is only consulted by issubclass); dispatch keys on type(v), which the other clauses check
+                continue
             for v in vals:
                 tried += 1
                 try:
